@@ -315,6 +315,8 @@ class Ctx:
                 self.log("TRACE %-38s accepted: %d executions, %d states %.1fs" % (what, n_exec, r["distinct"], time.time() - t))
                 self.mc_runs.append({"model": "%s/%s" % (tla, cfg), "expect": "accept-trace", "executions": n_exec,
                                      "distinct_states": r["distinct"], "wall_s": round(time.time() - t, 1)})
+                if os.environ.get("VERIF_BINDPROBE") and not getattr(self, "replay_path", None):
+                    self._bind_probe(d, tla, cfg, trace_path, e, j, what)
                 return True, r
             if rc == 124:
                 raise Infra("TLC trace validation timeout (%s)" % what)
@@ -328,6 +330,64 @@ class Ctx:
             if attempt == 2:
                 return False, info
         return False, info
+
+    def _bind_probe(self, d, tla, cfg, trace_path, env, jvm, what, n=8):
+        """Binding probe (VERIF_BINDPROBE=1): corrupt the first execution of a trace that was just accepted - drop one event, change
+        one recorded integer or boolean field, swap two neighbouring events - and count how many corrupted traces TLC rejects. Not every
+        corruption has to be rejected (an event may be legitimately optional, two events may commute), but a trace specification
+        that rejects none is not bound to what the driver records. The result goes into the evidence (coverage.binding_probe)."""
+        key = (tla, os.path.basename(cfg))
+        probed = self.__dict__.setdefault("_probed", set())
+        if key in probed:
+            return
+        probed.add(key)
+        lines = []
+        with open(trace_path) as f:
+            for ln in f:
+                lines.append(ln.rstrip("\n"))
+                if '"e":"Reset"' in ln or len(lines) > 4000:
+                    break
+        if len(lines) < 4 or len(lines) > 4000:
+            return
+        if '"e":"Reset"' not in lines[-1]:
+            lines.append('{"e":"Reset"}')
+        import random
+        rng = random.Random(20261003)
+        body = list(range(0, len(lines) - 1))
+        res = []
+        for k in range(n):
+            ex = list(lines)
+            kind = ("drop", "field", "swap", "field")[k % 4]
+            i = rng.choice(body)
+            if kind == "drop":
+                desc = "drop line %d: %s" % (i + 1, ex[i][:80]); del ex[i]
+            elif kind == "swap":
+                if i + 1 >= len(ex) - 1 or ex[i] == ex[i + 1]:
+                    continue
+                desc = "swap lines %d,%d: %s <-> %s" % (i + 1, i + 2, ex[i][:50], ex[i + 1][:50]); ex[i], ex[i + 1] = ex[i + 1], ex[i]
+            else:
+                try:
+                    o = json.loads(ex[i])
+                except Exception:
+                    continue
+                fs = [f for f, v in o.items() if f != "e" and (isinstance(v, bool) or isinstance(v, int))]
+                if not fs:
+                    continue
+                f = rng.choice(sorted(fs))
+                o[f] = (not o[f]) if isinstance(o[f], bool) else o[f] + 1
+                desc = "line %d field %s changed: %s" % (i + 1, f, ex[i][:80]); ex[i] = json.dumps(o, separators=(",", ":"))
+            tp = self.tmp("bindprobe_%s_%d.ndjson" % (os.path.basename(cfg).replace(".cfg", ""), k))
+            with open(tp, "w") as f:
+                f.write("\n".join(ex) + "\n")
+            e2 = dict(env); e2["TRACE"] = tp
+            rc, out = sh(_tlc_cmd(tla, cfg, self.metadir(), 1, [], list(jvm)), timeout=600, env=e2, cwd=d)
+            if rc == 124:
+                continue
+            res.append({"corruption": desc, "rejected": rc != 0})
+        rej = sum(1 for r in res if r["rejected"])
+        self.__dict__.setdefault("bind_probe", []).append({"trace_spec": "%s/%s" % (tla, os.path.basename(cfg)), "source": what, "tried": len(res),
+                                                           "rejected": rej, "accepted_corruptions": [r["corruption"] for r in res if not r["rejected"]]})
+        self.log("BINDPROBE %-36s %d of %d corrupted traces rejected" % (what[:36], rej, len(res)))
 
     # -- results ----------------------------------------------------------------------------------------
     def save_replay(self, tag, content):
@@ -377,6 +437,8 @@ class Ctx:
             "wall_s": round(time.time() - self.t0, 1),
             "violations": len(self.violations),
         }
+        if getattr(self, "bind_probe", None):
+            ev["coverage"]["binding_probe"] = self.bind_probe
         if rule:
             ev["coverage"]["rule"] = rule
         if extra_cov:
